@@ -3,7 +3,7 @@
 From Coq Require Import NArith ZArith QArith Reals Lra Lqa List Bool.
 Import ListNotations.
 From KV Require Import Base.GF2 Decoders.Hard Mod.Constellation Mod.Demod Pipe.Chain Constr.Power Constr.PowerFacts
-  Chan.NoiseR Chan.NoiseQ Chan.Fading Diff.ConvShape Gen.Arch Batch.Pure Base.Layout.
+  Chan.NoiseR Chan.NoiseQ Chan.Fading Diff.ConvShape Gen.Arch Batch.Pure Base.Layout Batch.IterStop.
 
 (* C09 / C02 / C01: the (7,4) Hamming code with its certificates satisfies the hypotheses of the chain theorem with t = 1 *)
 Definition ham_g : list N := [49; 82; 100; 120]%N.
@@ -42,3 +42,10 @@ Proof. repeat split; vm_compute; reflexivity. Qed.
 (* C20: a row of two blocks of length 3 is accepted and answered block by block *)
 Example c20_two_blocks : blockwise 3 (fun b : list bool => map negb b) [true; false; true; false; false; true] = Some [false; true; false; true; true; false].
 Proof. reflexivity. Qed.
+
+(* C20: an index-set loop whose members leave at different passes (after 3, 1 and never within the budget of 4) *)
+Example c20_rows_leave_at_different_passes :
+  IterStop.batch_decode nat nat S (fun s => s) (fun s => Nat.eqb s 3) 4 0%nat [0; 2; 5]%nat = [3; 3; 9]%nat
+  /\ map (IterStop.single_decode nat nat S (fun s => s) (fun s => Nat.eqb s 3) 4 0%nat) [0; 2; 5]%nat = [3; 3; 9]%nat
+  /\ IterStop.global_decode nat nat S (fun s => s) (fun s => Nat.eqb s 3) 4 0%nat [0; 2; 5]%nat = [4; 6; 9]%nat.
+Proof. repeat split; vm_compute; reflexivity. Qed.
